@@ -30,13 +30,13 @@ ASSUMPTIONS = ['card values are compared after parsing (strings: quotes/padding 
                'TBIN is written with 15 significant digits: compared to 1e-13 relative']
 OWNED = ['NBITS', 'NPOL', 'OBSNCHAN', 'NANTS', 'BLOCSIZE', 'TBIN', 'CHAN_BW', 'OBSBW', 'OBSFREQ', 'SCANLEN']
 RESERVED = set(OWNED) | {'DIRECTIO', 'PKTIDX', 'PKTSTART', 'PKTSTOP', 'TELESCOP', 'OBSERVER', 'SRC_NAME', 'END'}
-DIRECTIO = ['absent', 0, 1, '1', "'1'", 'absent', 1, 0]
+DIRECTIO = ['absent', 0, 1, '1', "'1'", 'absent', 1, 0, '0', "'0'", 1]
 
 
 def required(tier):
     b = {f'residue:{k}': 1 for k in range(32)}
     b.update({'residue:0': 4, 'directio:on': 40, 'directio:off': 40, 'template:on': 20, 'template:off': 40, 'override-attempt': 30,
-              'multi-file': 40, 'permutations>=2': 20, 'many-blocks-unpadded': 20, 'empty-string-value': 10, 'blimpy-consulted': 50, 'aligned+directio': 3})
+              'multi-file': 40, 'permutations>=2': 20, 'many-blocks-unpadded': 20, 'directio:string-zero': 20, 'empty-string-value': 10, 'blimpy-consulted': 50, 'aligned+directio': 3})
     return {'buckets': b, 'counters': {'blocks_parsed': 500, 'reader_comparisons': 500, 'listing_orders_realised': 40},
             'checks': 3000, 'nontrivial': 100}
 
@@ -154,6 +154,8 @@ def _run(stg, raw_utils, c, cfg, tmp, R):
     R.bucket('template:on' if c['template'] else 'template:off')
     if c['override']:
         R.bucket('override-attempt')
+    if isinstance(hd.get('DIRECTIO'), str) and hd['DIRECTIO'].strip("'") == '0':
+        R.bucket('directio:string-zero')
     if any(v == '' for v in hd.values() if isinstance(v, str)):
         R.bucket('empty-string-value')
     mine = dict(hd)
